@@ -31,6 +31,14 @@ theorem engine_ignores_unknown (fuel : Nat) (st : St) (b : Bytes)
     exact absurd (routes_only_named_ids fuel st b ev id hev hr)
       (h id (routes_only_pending fuel st b ev id hev hr))
 
+/-- "… as result or error": an rpc_error — plain or gzip-packed, at any nesting — is never
+handed to a caller as a result body: the payload of every `result` notification does not start
+with the rpc_error type id 0x2144ca19 (it is delivered through `NotifyError` instead). -/
+theorem rpc_error_never_delivered_as_result (fuel : Nat) (st : St) (b : Bytes) (id : Nat) (d r : Bytes)
+    (h : Ev.result id d ∈ (handle fuel st b).evs) : getU32 d ≠ .ok (0x2144ca19, r) := by
+  have := (near_handle fuel).1 st b id d h r
+  simpa [Facts.C23.rpcErrorTypeID] using this
+
 /-- Handling a payload never changes which requests are pending. -/
 theorem pending_unchanged (fuel : Nat) (st : St) (b : Bytes) :
     (handle fuel st b).st.pending = st.pending :=
